@@ -431,6 +431,25 @@ def run(ctx) -> None:
         rep.add("C02.R5", f"executor[{key}]:materialise-guard", ok, (d.get(True) or d.get(False))[1], f"both runners materialise a generator result under '{d[False][0]}'" if ok else f"runners decide differently when to materialise a result: sync '{d.get(False, ('-',))[0]}' vs async '{d.get(True, ('-',))[0]}'")
 
     # ---- R6 -------------------------------------------------------------------
+    # node-list order: the gates controlling a node are listed in node order; activation is an existential over
+    # them ("some gate routed here"), so the scan may stop only on success — stopping at the first gate with a
+    # live decision makes the outcome depend on which of two disagreeing gates comes first in the node list
+    from .c03 import check_any_gate_activates
+
+    check_any_gate_activates(ctx, "C02.R6")
+    # the table of bindings surfaced from nested graphs (read by plain sibling nodes) is merged in node-list order:
+    # when two nested graphs bind the same input name, the merge must not let the list order pick the winner
+    # (reject the conflict, iterate in a canonical order, or do not surface a contested name)
+    cbv = db.func("graph.input_spec._collect_bound_values")
+    order_dep = None
+    for lp in [n for n in walk_local(cbv.node) if isinstance(n, ast.For)]:
+        it = lp.iter
+        if isinstance(it, ast.Call) and isinstance(it.func, ast.Attribute) and it.func.attr == "values" and not (isinstance(it.func.value, ast.Call)):
+            stores = [x for x in ast.walk(lp) if isinstance(x, ast.Assign) and isinstance(x.targets[0], ast.Subscript)]
+            rejects = [x for x in ast.walk(lp) if isinstance(x, ast.Raise)]
+            if stores and not rejects:
+                order_dep = lp
+    rep.add("C02.R6", f"{cbv.qname}:merge-order-independent", order_dep is None, f"{cbv.module.rel}:{order_dep.lineno if order_dep else cbv.lineno}", "the merge of nested bindings cannot depend on the node-list order" if order_dep is None else "bindings of nested graphs are merged in node-list order and the first (or last) graph binding a name wins: with g1.bind(cfg='A'), g2.bind(cfg='B') and a plain sibling plain(cfg), Graph([g1, g2, plain]) gives plain 'A' and Graph([g2, g1, plain]) gives it 'B' although every output name is unique")
     from .c03 import check_ready_list_provenance
 
     check_ready_list_provenance(ctx, "C02.R6")
